@@ -372,6 +372,7 @@ inductive Op (F : Type) where
   | save
   | load
   | clear
+  | restart (m : Int)         -- a new process: `NewSearchHistory(samePath, m)`; the file stays
   | setFile (f : Option F)    -- the environment replaces (or removes) the on-disk file: arbitrary content
 
 def Op.isTool {F : Type} : Op F → Bool
@@ -388,6 +389,7 @@ def step (P : Params) (y : Sys F) : Op F → Except Panic (Sys F)
   | .save => .ok { y with file := some (saveBytes C y.h) }
   | .load => .ok { y with h := (load C P y.h y.file).1 }
   | .clear => .ok { y with h := clear y.h, file := some (saveBytes C (clear y.h)) }
+  | .restart m => .ok { y with h := new P m }
   | .setFile f => .ok { y with file := f }
 
 def run (P : Params) : Sys F → List (Op F) → Except Panic (Sys F)
@@ -419,6 +421,7 @@ def specStep {F : Type} (x : Spec) : Op F → Spec
   | .save => { x with saved := some x.log }
   | .load => { x with log := x.saved.getD x.log }
   | .clear => { x with log := [], saved := some [] }
+  | .restart _ => { x with log := [] }
   | .setFile _ => x
 
 def specRun {F : Type} (x : Spec) (ops : List (Op F)) : Spec := ops.foldl specStep x
